@@ -63,14 +63,17 @@ NextWorld(W, W0, e) ==
     IF e.exc # "None" THEN W
     ELSE CASE e.op = "move"           -> [W EXCEPT !.ob[e.arg] = [@ EXCEPT !.poses = ShiftPoses(@, e.d)]]
            [] e.op = "remove_lanelet" -> [W EXCEPT !.L = @ \ {e.arg}]
-           [] e.op = "replace_network" -> [W EXCEPT !.L = W0.L]                      \* a fresh copy of the original network
+           [] e.op = "move_network"   -> [W EXCEPT !.lan = [i \in DOMAIN @ |-> <<@[i][1] + e.d[1] \div 2, @[i][2] + e.d[2] \div 2,
+                                                                                 @[i][3] + e.d[1] \div 2, @[i][4] + e.d[2] \div 2>>]]
+           [] e.op = "replace_network" -> [W EXCEPT !.L = W0.L, !.lan = W0.lan]      \* a fresh copy of the original network
            [] e.op = "add" /\ e.fresh = 1 -> [W EXCEPT !.ob[e.arg] = W0.ob[e.arg]]   \* rebuilt from the descriptor
-           [] e.op \in {"open_xml", "open_pb"} -> [W0 EXCEPT !.L = W.L, !.ob = W.ob]   \* the file carries the current world
+           [] e.op \in {"open_xml", "open_pb"} -> W                                    \* the file carries the current world
            [] OTHER -> W
 NextSync(W, sy, e) ==
     IF e.exc # "None" THEN sy
     ELSE CASE e.op \in {"assign", "open_xml", "open_pb"} -> Present(e)
            [] e.op = "replace_network" -> {}             \* recorded relations refer to the old network until re-assigned
+           [] e.op = "move_network" -> sy                \* registries and recorded relations still mirror each other
            [] e.op = "assign_center" -> Present(e)
            [] e.op = "add"    -> sy \cup {e.arg}
            [] e.op = "remove" -> sy \ {e.arg}
